@@ -103,6 +103,24 @@ int arrTotal(const Arr *a) {
     return t + 1000 * (a->name ? static_cast<int>(std::strlen(a->name)) : 77);
 }
 
+// ---------------------------------------------------------------- Bag
+Bag::Bag(const int *vals, int n) : m_magic(MAGIC), m_id(g_next_id++), m_total(0) {
+    Guard g;
+    for (int i = 0; i < n; i++) m_total += vals[i];
+    m_total += 9000 + n;   // (unique enough to be told from Item values)
+    sim_obj_born(m_id, this);
+    sim_obj_value(m_id, m_total);
+    sim_event("ctor id=%d v=%d bag", m_id, m_total);
+}
+Bag::~Bag() {
+    Guard g;
+    if (m_magic != MAGIC) sim_event("BADMAGIC dtor bag id=%d", m_id);
+    sim_event("dtor id=%d v=%d bag", m_id, m_total);
+    sim_obj_died(m_id);
+    m_magic = DEAD;
+}
+int Bag::total() const { Guard g; if (m_magic != MAGIC) sim_event("BADMAGIC bag total"); return m_total; }
+
 // ---------------------------------------------------------------- factories
 Item *makeItem(int v) { Guard g; return new Item(v); }
 Item *borrowItem() {
